@@ -119,10 +119,36 @@ impl VotingBuilder {
         set
     }
 
+    // The ledger orders voters by role (committee, DRep, stake pool) and, within a role, by
+    // credential with script hashes before key hashes, then by the hash bytes. Voting redeemer
+    // indices refer to that order.
+    fn ledger_ordered(&self) -> Vec<(&Voter, &VoterVotes)> {
+        let mut entries: Vec<(&Voter, &VoterVotes)> = self.votes.iter().collect();
+        entries.sort_by_key(|(voter, _)| {
+            let role: u8 = match &voter.0 {
+                VoterEnum::ConstitutionalCommitteeHotCred(_) => 0,
+                VoterEnum::DRep(_) => 1,
+                VoterEnum::StakingPool(_) => 2,
+            };
+            let hash_bytes = match &voter.0 {
+                VoterEnum::ConstitutionalCommitteeHotCred(cred) | VoterEnum::DRep(cred) => {
+                    match (cred.to_scripthash(), cred.to_keyhash()) {
+                        (Some(script_hash), _) => script_hash.to_bytes(),
+                        (_, Some(key_hash)) => key_hash.to_bytes(),
+                        _ => Vec::new(),
+                    }
+                }
+                VoterEnum::StakingPool(key_hash) => key_hash.to_bytes(),
+            };
+            (role, !voter.has_script_credentials(), hash_bytes)
+        });
+        entries
+    }
+
     pub fn get_plutus_witnesses(&self) -> PlutusWitnesses {
         let tag = RedeemerTag::new_vote();
         let mut scripts = PlutusWitnesses::new();
-        for (i, (_, voter_votes)) in self.votes.iter().enumerate() {
+        for (i, (_, voter_votes)) in self.ledger_ordered().into_iter().enumerate() {
             if let Some(ScriptWitnessType::PlutusScriptWitness(s)) = &voter_votes.script_witness {
                 let index = BigNum::from(i);
                 scripts.add(&s.clone_with_redeemer_index_and_tag(&index, &tag));
